@@ -1,11 +1,13 @@
 #!/bin/bash
 # verify_mut.sh <worktree> <demo-test-name>: confirm a seeded change: suite passes with it, demo fails with it, demo passes without it.
+# (no git stash: the stash is shared by all worktrees of a repository)
 W=$1; T=$2
 cd "$W" || exit 2
 export CARGO_NET_OFFLINE=true
+git diff -- src > /tmp/verify-$$.diff
 echo "== suite with change"; cargo test --offline --lib 2>&1 | grep -E "^test result" ; cargo test --offline --doc 2>&1 | grep -E "^test result"
-echo "== demo with change (expect FAIL)"; cargo test --offline --test "$T" 2>&1 | grep -E "^test result|panicked" | head -5
-git stash push -q -- src
+echo "== demo with change (expect FAIL)"; cargo test --offline --test "$T" 2>&1 | grep -E "^test result|panicked|error: test failed" | head -5
+git apply -R /tmp/verify-$$.diff
 echo "== demo without change (expect ok)"; cargo test --offline --test "$T" 2>&1 | grep -E "^test result|panicked" | head -5
-git stash pop -q
+git apply /tmp/verify-$$.diff; rm -f /tmp/verify-$$.diff
 git status --short | head
